@@ -355,8 +355,8 @@ theorem feed_dead {β : Type} (s : Noir.Start.State) (h : s.missingTerm = 0) (r 
 theorem step_payloads (l : Bool) (s : Noir.Start.State) (h : s.missingTerm ≠ 0) (r : Nat) (e : Elem (Bin α)) :
     payloads l (Noir.Start.step s (.elem r e)).2 = payloads l [e] := by
   cases e with
-  | item v => simp [Noir.Start.step, h]
-  | ts v t => simp [Noir.Start.step, h]
+  | item v => simp only [Noir.Start.step, h, if_false]; cases s.pending <;> simp [payloads]
+  | ts v t => simp only [Noir.Start.step, h, if_false]; cases s.pending <;> simp [payloads]
   | flushBatch => simp [Noir.Start.step, h]
   | wm t =>
     simp only [Noir.Start.step, h, if_false]
@@ -578,8 +578,8 @@ theorem step_term {β : Type} (s : Noir.Start.State) (h : s.missingTerm ≠ 0) (
   | timeout => left; simp [Noir.Start.step, h]
   | elem r e =>
     cases e with
-    | item v => left; simp [Noir.Start.step, h]
-    | ts v t => left; simp [Noir.Start.step, h]
+    | item v => left; simp only [Noir.Start.step, h, if_false]; cases s.pending <;> simp [h]
+    | ts v t => left; simp only [Noir.Start.step, h, if_false]; cases s.pending <;> simp [h]
     | flushBatch => left; simp [Noir.Start.step, h]
     | wm t =>
       left
@@ -774,8 +774,12 @@ theorem feed_plain (r : Nat) (d : List (Elem (Bin α))) (hd : ∀ e ∈ d, plain
         ∧ (∀ l, presented l (Noir.Start.step s (.elem r e)).2 = presented l [e])
         ∧ (∀ x ∈ (Noir.Start.step s (.elem r e)).2, plainE x = true) := by
       cases e with
-      | item v => simp [Noir.Start.step, hs, plainE, Elem.isFar, Elem.isTerm]
-      | ts v t => simp [Noir.Start.step, hs, plainE, Elem.isFar, Elem.isTerm]
+      | item v =>
+        simp only [Noir.Start.step, hs, if_false]
+        cases s.pending <;> simp [presented, ofSide, plainE, Elem.isFar, Elem.isTerm]
+      | ts v t =>
+        simp only [Noir.Start.step, hs, if_false]
+        cases s.pending <;> simp [presented, ofSide, plainE, Elem.isFar, Elem.isTerm]
       | flushBatch => simp [Noir.Start.step, hs, plainE, Elem.isFar, Elem.isTerm]
       | wm t =>
         simp only [Noir.Start.step, hs, if_false]
